@@ -310,6 +310,11 @@ func FieldMenu() []FieldVariant {
 	// percent signs in values the annotation does not mention (and in one it does): text, not format verbs
 	add("F22-percent-in-untouched-value", "Rate string `json:\"rate%,omitempty\" comment:\"100%d %s %v %% %!\"` // @tag valid:\"to=0~100|0%~100%\"", true)
 	add("F22-percent-in-overridden-value", "Pct string `valid:\"le=100|%d%%\" json:\"pct\"` // @tag valid:\"le=100|at most 100%\"", true)
+	// values holding "//" (URLs, patterns): text inside a value, not the start of a comment
+	add("F23-double-slash-in-injected-values", "Home string `json:\"homepage\"` // @tag default:\"https://example.com/\" valid:\"re=^https?://\"", true)
+	add("F23-double-slash-in-existing-value", "Site string `doc:\"see http://x//y\" json:\"site\"` // @tag valid:\"required\"", true)
+	// an annotation that overrides a key whose existing value carries options, with options of its own
+	add("F24-options-on-both-sides", "Opt string `json:\"user_id,omitempty\" xml:\"u,attr\"` // @tag json:\"id,string\"", true)
 	// keys that are a suffix / prefix of another key, same value: key matching must be on whole keys
 	add("F17-key-suffix-of-existing", "KeySuffix string `binding_valid:\"required\" json:\"ks\"` // @tag valid:\"required\"", true)
 	add("F17-key-prefix-of-existing", "KeyPrefix string `json:\"kp\" validx:\"required\"` // @tag valid:\"required\" json:\"kp\"", true)
